@@ -102,6 +102,11 @@ impl Run {
             std::sync::Arc::make_mut(&mut w.names).add(n, &a);
         }
         std::sync::Arc::make_mut(&mut w.names).add("OTHERIBC", "ibc/0000000000000000000000000000000000000000000000000000000000000BAD");
+        // the ibc-hooks intermediate accounts of the configured staker / collector are principals too (C08)
+        for who in ["staker", "collector"] {
+            let h = crate::store::hook_account("channel-1", &w.names.ad(who), "osmo");
+            std::sync::Arc::make_mut(&mut w.names).add(&format!("hook|channel-1|{who}"), &h);
+        }
         for n in ["val1", "val2", "val3", "val4"] {
             let a = mk_addr(&format!("{np}valoper"), n, 20);
             std::sync::Arc::make_mut(&mut w.names).add(n, &a);
